@@ -57,6 +57,9 @@ CHECKS = {
  'C36': (['asan'], 'event-log monitor: each transformation result evaluated by mpmath vs the library input tree (n/d, re + I*im and realness of re/im via conjugate, rewrites, conjugate vs mpmath conj) in the domain the property names + structural negative-exponent check',
          'Random expressions over trig/hyperbolic functions and inverses, nested fractions and numeric complex expressions are transformed by the real library; every output is judged by value.',
          'as_numer_denom inputs are positive on the positive reals (the stated domain); symbol-free inputs of rewrites/conjugate are not judged (constants on branch cuts).', 'DESIGN.md 3/C36'),
+ 'C35': (['asan'], 'event-log monitor: refine/simplify results evaluated by mpmath vs the library input tree at assignments drawn inside the assumption set (negative, zero, integer, rational, complex points as allowed)',
+         'Expressions aimed at each refine/simplify rule under 13 assumption sets per symbol; each result is judged by value at points satisfying the assumptions.',
+         'Points are sampled inside each assumption set; a rule that is wrong only on a measure-zero subset not hit by the samplers is out of reach.', 'DESIGN.md 3/C35'),
 }
 
 def main():
